@@ -475,7 +475,9 @@ def rule_L7(ctx):
     fm = ctx.fn(gp, "get_fmt_chunk_data", "L7")
     for p in [p for p in run_paths(ctx, fm, rule="L7") if p.end == "return"]:
         for call, env, st in calls_on(p, name="WavFormatChunkContainer"):
-            kw = {k.arg: evaluator(ctx, fm, env).ev(k.value).key() for k in call.keywords}
+            from .util import call_parts as _cpf
+            # keyword arguments as value-flow terms; a dict built in steps and splatted (**fields) is seen through
+            kw = _cpf(evaluator(ctx, fm, env).ev(call).key())[2]
             want = {"audio_format": "1", "channel_cnt": "encoding.num_interleaved_channels", "sample_rate": "sample.sample_rate",
                     "bits_per_sample": "8*encoding.sample_width"}
             for k, w in want.items():
